@@ -642,11 +642,12 @@ class Interp:
                 return
             v = s.value
             if (isinstance(v, ast.Call) and isinstance(v.func, ast.Attribute) and isinstance(v.func.value, ast.Name)
-                    and v.func.attr in ('append', 'extend') and v.func.value.id in fr.env and len(v.args) == 1
+                    and v.func.attr in ('append', 'extend', 'add', 'update') and v.func.value.id in fr.env and len(v.args) == 1
                     and fr.env[v.func.value.id][0] not in ('sym', 'attr', 'bvar', 'idx') ):
                 name = v.func.value.id
                 val = self.ex(v.args[0], fr)
-                self.accumulate(name, v.func.attr, None, val, fr, s)
+                opn = {'add': 'setadd', 'update': 'setupdate'}.get(v.func.attr, v.func.attr)
+                self.accumulate(name, opn, None, val, fr, s)
                 return
             n0 = len(self.sink)
             if (isinstance(v, ast.Call) and isinstance(v.func, ast.Attribute) and v.func.attr in ('append', 'extend') and len(v.args) == 1
@@ -828,7 +829,7 @@ class Interp:
             fr.env[name] = cat(cur, ('list', (val,)))
         elif op == 'extend':
             fr.env[name] = cat(cur, val)
-        elif op in ('setidx', 'addidx', 'appendidx', 'extendidx', 'setslice'):
+        elif op in ('setidx', 'addidx', 'appendidx', 'extendidx', 'setslice', 'setadd', 'setupdate'):
             fr.env[name] = ('upd', cur, op, index, val)
         else:
             fr.env[name] = simp(BIN(op, cur, val))
@@ -895,7 +896,7 @@ class Interp:
                             if isinstance(x, ast.Subscript) and isinstance(x.value, ast.Name):
                                 names.add(x.value.id)
                 elif isinstance(n, ast.Call) and isinstance(n.func, ast.Attribute) and isinstance(n.func.value, ast.Name) \
-                        and n.func.attr in ('append', 'extend'):
+                        and n.func.attr in ('append', 'extend', 'add', 'update'):
                     names.add(n.func.value.id)
                 elif isinstance(n, (ast.For, ast.comprehension)):
                     for x in ast.walk(n.target):
